@@ -264,6 +264,8 @@ def m_list(eng, st, args, kw, node):
     if not args:
         return eng.mk_list(st, st.hint_ek or 'int', z3.IntVal(0), z3.K(I, z3.IntVal(0)))
     v = args[0]
+    if isinstance(v.k, tuple) and v.k[0] == 'iter':
+        return Val(('list', v.k[1]), v.t)
     if isinstance(v.k, tuple) and v.k[0] == 'list':
         # fresh list with the same elements
         return eng.mk_list(st, v.k[1], eng.list_len(st, v), eng.list_arr(st, v))
@@ -1798,7 +1800,7 @@ def m_chain(eng, st, args, kw, node):
                                              z3.Select(out, off(res.t, k_) + j_) == z3.Select(z3.Select(elr, z3.Select(parts, k_)), j_)),
                         patterns=[z3.Select(z3.Select(elr, z3.Select(parts, k_)), j_)]))
     st.heap.wr('len', res.t, off(res.t, n))
-    return res
+    return Val(('iter', 'real'), res.t)      # an iterator: list(...) materialises it (same object in the model)
 
 
 _old_m_list = MODELS['builtins.list']
